@@ -52,24 +52,23 @@ fn k3_body(nlo: isize, nhi: isize) {
   kani::cover!(n == nlo as i64, "k3 reachable");
   let _ = r;
 }
-//@SLICES prefix=c01_k3_jd2ymd call=k3_body lo=1721424 hi=5373484 n=512 attr="#[kani::proof_for_contract(JulianDay::get_solar_time)]"
+//@SLICES prefix=c01_k3_jd2ymd call=k3_body lo=1721424 hi=5373484 n=64 attr="#[kani::proof_for_contract(JulianDay::get_solar_time)]"
 
-// date-side proof of the same contract: the input is generated as n = jdn(y,m,d) for a symbolic VALID date.
-// By lemma C01.V2 (lemma_surjective) every day number of the precondition's range has this form, so this
-// harness covers the whole precondition domain; it additionally asserts the result is that very date.
-fn k3d_body(ylo: isize, yhi: isize) {
+// quick-tier form of K3 (no contract machinery): date -> spec day number -> get_solar_time gives the same date back.
+// By lemma C01.V2 (lemma_surjective) every day number in range is jdn of a valid date, so over a complete
+// partition this is the inverse conversion for every day number; the quick tier runs a stated subset of slices.
+fn k3q_body(ylo: isize, yhi: isize) {
   let y: isize = kani::any();
   let m: usize = kani::any();
   let d: usize = kani::any();
   kani::assume(y >= ylo && y <= yhi);
   kani::assume(spec::valid_date(y as i64, m as i64, d as i64));
   let n = spec::jdn(y as i64, m as i64, d as i64);
-  let jd = JulianDay::from_julian_day((n as f64) - 0.5);
-  let r = jd.get_solar_time();
+  let r = JulianDay::from_julian_day((n as f64) - 0.5).get_solar_time();
   assert!(r.get_year() == y && r.get_month() == m && r.get_day() == d, "day number maps back to the date it came from");
-  kani::cover!(y == ylo && m == 2 && d == 28, "k3d reachable");
+  assert!(r.get_hour() == 0 && r.get_minute() == 0 && r.get_second() == 0, "midnight stays midnight");
+  kani::cover!(y == ylo && m == 2 && d == 28, "k3q reachable");
 }
-//@SLICES prefix=c01_k3d_jd2ymd call=k3d_body lo=1 hi=9999 n=16 attr="#[kani::proof_for_contract(JulianDay::get_solar_time)]"
-//@SLICES prefix=c01_k3e_jd2ymd call=k3d_body lo=1 hi=9999 n=1 attr="#[kani::proof_for_contract(JulianDay::get_solar_time)]"
+//@SLICES prefix=c01_k3q_jd2ymd call=k3q_body lo=1 hi=9999 n=100
 
 // ---- weekday (C07) ---------------------------------------------------------------------------
